@@ -422,6 +422,20 @@ Fixpoint delivered_rev (log : list (nat * ev)) : list N :=
   end.
 Definition delivered (log : list (nat * ev)) : list N := rev (delivered_rev log).
 
+(* ... their heights; THE MONITOR of "every block is handed to the listeners exactly once, in order" *)
+Fixpoint heights_rev (log : list (nat * ev)) : list N :=
+  match log with
+  | [] => []
+  | (_, EvDeliver _ h) :: r => h :: heights_rev r
+  | _ :: r => heights_rev r
+  end.
+Definition delivered_heights (log : list (nat * ev)) : list N := rev (heights_rev log).
+Fixpoint consecutive (h : N) (l : list N) : bool :=
+  match l with
+  | [] => true
+  | x :: r => N.eqb x (h + 1) && consecutive (h + 1) r
+  end.
+
 (* the run of a program alone, with a reachable node that answers every request (the fault-free run):
    final state and how the thread ended *)
 Fixpoint rsolo (p : rprog rout) (t : tower) : tower * rres :=
